@@ -150,10 +150,11 @@ inductive Expr
   | unknown
   /-- Python `None` where a node is optional (dict key of `**m`) -/
   | absent
-  /-- a node that carries no `parent` link when the colourizer reaches it: the root of a sub-tree
-  that `astutils.unstring_annotation` parsed out of a string literal and spliced in (nobody re-runs
-  `Parentage` below the original, still linked, annotation root).  `_colorize_ast` then links the
-  sub-tree itself, with `parent = None` at this node, so `_OperatorDelimiter` treats it as top level. -/
+  /-- HISTORICAL (before a1c047d): a node that carried no `parent` link when the colourizer reached
+  it — the root of a sub-tree that `astutils.unstring_annotation` parsed out of a string literal.
+  `_colorize_ast` links such a node itself with `parent = None`, so `_OperatorDelimiter` treats it
+  as top level.  Since a1c047d `unstring_annotation` re-runs `Parentage`; no request uses this
+  constructor any more, it is kept for `unstring_counterexample_old`. -/
   | unlinked (e : Expr)
   deriving Repr, Inhabited
 
